@@ -4,6 +4,7 @@ import (
 	"context"
 	"crypto/sha256"
 	"encoding/binary"
+	"encoding/hex"
 	"encoding/json"
 	"fmt"
 	"github.com/ethereum/go-ethereum/metrics"
@@ -654,6 +655,97 @@ func (c *child) runSegment(s segment, lo, hi int) {
 			c.done(s.Kind, s.Net, resp)
 		}
 		cur.Store(nil)
+		c.liveness(s)
+	case s.Kind == "api":
+		// The JSON-RPC methods of the sub-protocol, called as the RPC server calls them. What they are handed by the
+		// local user is well-formed (the statement is about what a PEER can deliver; content keys are opaque bytes and come from
+		// the key generators); what comes back from the peer they talk to is hostile (the same answer generator as the
+		// wire-resp segments). Every call has to return, without a panic.
+		api := portalwire.NewPortalAPI(p)
+		adv := c.env.advs[0]
+		var cur atomic.Pointer[[]byte]
+		adv.OnTalk(string(ne.proto), func(from *enode.Node, addr *net.UDPAddr, msg []byte) []byte {
+			if b := cur.Load(); b != nil {
+				return *b
+			}
+			return nil
+		})
+		advEnr := adv.Self().String()
+		hexs := func(b []byte) string { return "0x" + hex.EncodeToString(b) }
+		for i := lo; i < hi; i++ {
+			local := i - s.start
+			rng := c.rng(s.Kind, s.Net, local)
+			method := local % 16
+			kind := []string{"offerresp", "offerresp", "content", "nodes", "pong", "content", "nodes", "content"}[method%8]
+			resp := g.response(rng, kind, local)
+			if len(resp) > 1100 {
+				resp = resp[:1100]
+			}
+			if len(resp) == 4 && resp[0] == portalwire.CONTENT && resp[1] == portalwire.ContentConnIdSelector {
+				resp = append(resp, 0)
+			}
+			key := g.someKey(rng)
+			if len(key) > 200 {
+				key = key[:200]
+			}
+			c.logCase(i, s.Kind, s.Net, append([]byte{byte(method)}, resp...))
+			cur.Store(&resp)
+			site, m, pan := guard(func() {
+				switch method {
+				case 0:
+					_, _ = api.TraceOffer(advEnr, hexs([]byte{0x00, byte(local), 2, 3}), hexs([]byte("trace-offer-value")))
+				case 1:
+					_, _ = api.Offer(advEnr, [][2]string{{hexs([]byte{0x00, byte(local), 9}), hexs([]byte("v1"))}, {hexs(key), hexs([]byte("v2"))}})
+				case 2:
+					_, _ = api.FindContent(advEnr, hexs(key))
+				case 3:
+					_, _ = api.FindNodes(advEnr, []uint{uint(rng.Intn(300)), 256, 0})
+				case 4:
+					var pt *uint16
+					var pl *string
+					if rng.Intn(2) == 0 {
+						t := uint16([]int{0, 1, 2, 3, 65535}[rng.Intn(5)])
+						v := hexs(validPayload(rng, t))
+						if rng.Intn(3) == 0 {
+							v = `{"clientInfo":"","dataRadius":"0x` + strings.Repeat("ff", 32) + `","capabilities":[0,1]}`
+						}
+						pt, pl = &t, &v
+					}
+					_, _ = api.Ping(advEnr, pt, pl)
+				case 5:
+					_, _ = api.RecursiveFindContent(hexs(key))
+				case 6:
+					_, _ = api.RecursiveFindNodes(hex.EncodeToString(randBytes(rng, 32)))
+				case 7:
+					_, _ = api.TraceRecursiveFindContent(hexs(key))
+				case 8:
+					_, _ = api.AddEnr(advEnr)
+				case 9:
+					_ = api.AddEnrs([]string{advEnr, c.env.advs[1].Self().String(), advEnr})
+				case 10:
+					_, _ = api.GetEnr([]string{adv.ID().String(), hex.EncodeToString(randBytes(rng, 32))}[rng.Intn(2)])
+				case 11:
+					_, _ = api.LookupEnr(hex.EncodeToString(randBytes(rng, 32)))
+				case 12:
+					_, _ = api.Store(hexs(key), hexs(randBytes(rng, rng.Intn(200))))
+				case 13:
+					_, _ = api.LocalContent(hexs(key))
+				case 14:
+					_, _ = api.Gossip(hexs(key), hexs(randBytes(rng, 1+rng.Intn(100))))
+				case 15:
+					_, _ = api.DeleteEnr(hex.EncodeToString(randBytes(rng, 32)))
+					_ = api.NodeInfo()
+					_ = api.RoutingTableInfo()
+				}
+			})
+			if pan {
+				c.violation("panic:"+site+":"+msgClass(m), fmt.Sprintf("RPC method #%d (%s) panicked on a hostile peer answer or argument: %s at %s", method, s.Net, m, site), i, s.Kind, s.Net, resp)
+			}
+			c.count(fmt.Sprintf("api_calls_method_%d", method), 1)
+			c.done(s.Kind, s.Net, resp)
+		}
+		cur.Store(nil)
+		p.AddEnr(adv.Self())
 		c.liveness(s)
 	case s.Kind == "wire-stream":
 		c.wireParallel(s, lo, hi, func(i, local int, adv *pnode.Adversary, rng *rand.Rand) []byte {
